@@ -12,7 +12,9 @@ from . import kernel, profiles
 from .kernel import Chooser
 from .scenario import Gen
 
-EV_NAMES = ["bytes_consumed", "hpc_submit", "hpc_job_assigned", "submit_completed", "log_error", "user_event", "x"]
+EV_NAMES = ["bytes_consumed", "hpc_submit", "hpc_job_assigned", "submit_completed", "log_error", "user_event", "x",
+            # user-defined names: dotted, sharing the text before their last dot, a name next to its own prefix
+            "sim.started", "sim.finished", "sim", "a.b.c", "a.b.d", "user_event.v2"]
 
 
 def gen(ch, prof):
